@@ -119,6 +119,8 @@ def generate(tier, rng):
             cases.append(channel_case(rng, k, ch)); k += 1
     for _ in range(25 if tier == 'quick' else 400):
         cases.append(Case(gen.compound_loop_program(rng), limits=dict(steps=20000), meta=dict(gen='compound-in-loop', sample=False)))
+    for _ in range(25 if tier == 'quick' else 500):      # cross-feature programs (gen.rich_program): every data kind, call mode and file kind mixed
+        cases.append(Case(gen.rich_program(rng), limits=dict(steps=30000), stdin=b'typed\n', meta=dict(gen='rich', sample=False)))
     return cases
 
 def intrinsic(case, io, ia):
